@@ -137,12 +137,12 @@ for skips in (0, 1, 2):
 def tcfg(cols, rows, **kw):
     """Rust expression for a TCfg"""
     f = dict(sb=0, limit="None", alt=0, crow="SYM", ccol="SYM", top="SYM", bottom="SYM", parked_rows=0, parked_sb=0,
-             tabs_k="SYM", fill="Fill::Sym")
+             tabs_k="SYM", fill="Fill::Sym", asrow="SYM")
     f.update(kw)
     return ("TCfg { cols: %d, rows: %d, sb: %s, limit: %s, alt: %s, crow: %s, ccol: %s, top: %s, bottom: %s, "
-            "parked_rows: %s, parked_sb: %s, tabs_k: %s, fill: %s }" % (
+            "parked_rows: %s, parked_sb: %s, tabs_k: %s, fill: %s, asrow: %s }" % (
                 cols, rows, f["sb"], f["limit"], f["alt"], f["crow"], f["ccol"], f["top"], f["bottom"],
-                f["parked_rows"], f["parked_sb"], f["tabs_k"], f["fill"]))
+                f["parked_rows"], f["parked_sb"], f["tabs_k"], f["fill"], f["asrow"]))
 
 
 def geo_desc(cols, rows, **kw):
@@ -305,7 +305,7 @@ def prnt(cols, rows, row, top, bottom, props, sb=1, alt=2, limit="Some(1)", mem=
     if rep:
         opt = list(opt) + ["drawing set", "astral character"]
     inst("%s__%dx%d_r%d_m%d%d%s" % ("rep1" if rep else "pr", cols, rows, row, top, bottom, suffix), "terminal",
-         "t_print_or_rep(%s, %s)" % (tcfg(cols, rows, **kw), "true" if rep else "false"),
+         "t_print_or_rep(%s, %s)" % (tcfg(cols, rows, **kw), ("1" if "n1" in suffix else "0") if rep else "u32::MAX"),
          max(cols, rows + sb + 1) + 3, props, mem=mem, timeout=1500, stubs=[ROTATE_STUB],
          desc="execute(Print(ch)): translated char + current pen in exactly one cell, cursor advance / wrap-pending / deferred wrap (mark, next row or region scroll), "
               "insert mode shift, auto-wrap off overwrite, nothing else changes",
@@ -340,10 +340,69 @@ def rep(cols, rows, row, top, bottom, n, props, sb=0, alt=0, mem=24):
 
 
 prnt(3, 3, 2, 0, 2, {"C04": Q, "C01": T}, rep=True, opt=PR_OPT_NOSTEP)
-prnt(3, 3, 1, 1, 2, {"C04": T}, rep=True, opt=PR_OPT_NOSCROLL)
+prnt(3, 3, 1, 1, 2, {"C04": T}, rep=True, opt=PR_OPT_NOSCROLL, suffix="_n1")
 prnt(3, 3, 1, 0, 1, {"C04": T}, rep=True, opt=PR_OPT_NOSTEP)
 rep(3, 2, 1, 0, 1, 1, {"C04": T, "C01": T})
 rep(3, 2, 1, 0, 1, 2, {"C04": T, "C15": T})
 rep(3, 2, 0, 0, 1, 0, {"C04": T})
 rep(2, 2, 1, 0, 1, 3, {"C04": T, "C01": T})
 rep(3, 3, 1, 1, 2, 2, {"C04": T})
+
+
+# ----------------------------------------------------------------------------- screen switching, cursor context, RIS
+def switch(op, cols, rows, alt, props, parked_rows=None, parked_sb=1, sb=1, crow="SYM", asrow="SYM", mem=8, suffix=""):
+    pr = parked_rows or rows
+    kw = dict(sb=sb if alt == 0 else 0, alt=alt, limit="Some(1)", parked_rows=pr, parked_sb=parked_sb if alt == 1 else 0, crow=crow, asrow=asrow)
+    stale = pr != rows
+    inst("sw_%s__%dx%d_from%s%s%s" % (op.lower(), cols, rows, "alt" if alt else "pri", "_parked%d" % pr if stale else "", suffix), "terminal",
+         "t_switch(%s, SwitchOp::%s)" % (tcfg(cols, rows, **kw), op), 16, props, mem=mem, timeout=1500,
+         desc="execute(DECSET/DECRST %s) with the %s screen active%s: blank alternate screen in the current pen, primary parked / restored line for line, "
+              "saved contexts per screen, 1049 cursor save / restore" % (op, "alternate" if alt else "primary", ", parked primary of stale height %d" % pr if stale else ""),
+         bounds=geo_desc(cols, rows, **kw) + "; parked screen %d rows + %d scrollback line(s)" % (pr, kw["parked_sb"]))
+
+
+for op in ("Enter1047", "Enter1049"):
+    switch(op, 3, 3, 0, {"C16": Q, "C17": Q if op == "Enter1049" else T, "C15": Q if op == "Enter1047" else T, "C13": Q if op == "Enter1047" else T, "C02": T, "C08": T, "C01": T})
+    switch(op, 3, 3, 1, {"C16": T, "C17": T, "C02": T})
+    switch(op, 1, 1, 0, {"C16": T, "C01": T}, sb=0)
+for op in ("Leave1047", "Leave1049"):
+    switch(op, 3, 3, 1, {"C16": Q, "C17": Q if op == "Leave1049" else T, "C15": Q if op == "Leave1049" else T, "C02": T, "C14": T, "C01": T})
+    switch(op, 3, 3, 0, {"C16": T, "C17": T, "C02": T})
+    # R-switch: the primary was parked with another height (resize during the excursion); heights and cursor rows concrete
+    for (rows, pr, crow, asrow) in ((2, 3, 1, 2), (3, 2, 2, 0), (2, 3, 0, 0), (3, 2, 0, 1), (1, 3, 0, 1), (3, 1, 1, 0)):
+        quick = (rows, pr, crow, asrow) in ((2, 3, 1, 2), (3, 2, 2, 0))
+        switch(op, 3, rows, 1, {"C16": Q if quick else T, "C02": Q if quick and op == "Leave1049" else T, "C17": T, "C10": T, "C01": T}, parked_rows=pr, crow=crow, asrow=asrow,
+               suffix="_r%d_s%d" % (crow, asrow))
+
+
+def ctx(op, cols, rows, props, alt=2, sb=1, mem=8):
+    kw = dict(sb=sb, alt=alt, limit="Some(1)")
+    inst("cx_%s__%dx%d" % (op.lower(), cols, rows), "terminal", "t_ctx(%s, CtxOp::%s)" % (tcfg(cols, rows, **kw), op), max(cols, rows + sb) + 3, props, mem=mem,
+         desc="execute(%s): saved context == (col clamped, row, pen, origin, auto-wrap) / restored exactly / soft reset; no cell, nothing else changes" % op,
+         bounds=geo_desc(cols, rows, **kw))
+
+
+for op in ("Decsc", "Scosc", "Save1048", "Decrc", "Scorc", "Restore1048", "Decstr"):
+    ctx(op, 3, 3, {"C17": Q, "C02": T, "C01": T})
+    ctx(op, 1, 1, {"C17": T, "C01": T}, sb=0)
+
+
+def ris(cols, rows, alt, props, parked_rows=None, tabs_k="SYM", sb=1, limit="Some(1)", mem=8, suffix=""):
+    pr = parked_rows or rows
+    kw = dict(sb=sb if alt == 0 else 0, alt=alt, limit=limit, parked_rows=pr, parked_sb=1 if alt == 1 else 0, tabs_k=tabs_k)
+    opt = []
+    if alt == 0:
+        opt.append("RIS from the alternate screen")
+    if pr == rows:
+        opt.append("RIS with a stale parked screen")
+    inst("ris__%dx%d_from%s%s" % (cols, rows, "alt" if alt else "pri", suffix), "terminal", "t_ris(%s)" % tcfg(cols, rows, **kw),
+         max(cols, rows + 2, pr + 2) + 3, props, mem=mem, timeout=1500, optional_covers=opt,
+         desc="execute(Ris) from any InvT state equals Terminal::new((cols, rows), limit) field by field (cells, marks, cursor, pen, modes incl. cursor keys, margins, tabs, charsets, both saved contexts, limits, changed rows)",
+         bounds=geo_desc(cols, rows, **kw) + "; parked screen %d rows" % pr)
+
+
+ris(3, 3, 0, {"C19": Q, "C15": T, "C02": T, "C01": T}, tabs_k="1")
+ris(3, 3, 1, {"C19": Q, "C16": T, "C01": T}, parked_rows=2, suffix="_parked2")
+ris(9, 2, 1, {"C19": T}, tabs_k="2", suffix="_tabs")
+ris(1, 1, 0, {"C19": T, "C01": Q}, sb=0)
+# (RIS with an unlimited scrollback is outside: Buffer::new reserves 1000 lines, which CBMC does not survive)
